@@ -197,6 +197,7 @@ def run_scenario(labrea, scenario, schedule, granularity, order=None):
         raise MachineryError("scheduler stalled in scenario %r: a thread blocks on a primitive that is not a cooperative "
                              "Lock/RLock (no verdict possible)" % (scenario.get("name"),))
     events = [p for (_, _, p) in s.events]
+    run_scenario.last_hot = {n: list(v) for n, v in s.hot_steps.items()}
     steps = {n: out[n]["steps"] for n in out}
     errors = {n: out[n]["error"] for n in out if out[n]["error"]}
     return events, steps, s.deadlock, list(s.fired), errors
